@@ -50,6 +50,33 @@ theorem init_inv : Inv init := by
 @[simp] theorem setObj_nObjs (s : State) (j : Nat) (o : Obj) : (s.setObj j o).nObjs = s.nObjs := rfl
 @[simp] theorem obj_withTimers (s : State) (t : List Rec) (i : Nat) : ({ s with timers := t } : State).obj i = s.obj i := rfl
 
+
+/-- the invariant reads only these fields (not `pool` / `killed`) -/
+theorem inv_congr {s s' : State} (h : Inv s) (ht : s'.timers = s.timers) (ho : s'.objs = s.objs)
+    (hn : s'.nextTok = s.nextTok) (hnow : s'.now = s.now) (hl : s'.log = s.log) (hp : s'.passNow = s.passNow)
+    (hld : s'.lastDeadline = s.lastDeadline) (hno : s'.nObjs = s.nObjs) : Inv s' := by
+  have hobj : ∀ j, s'.obj j = s.obj j := fun j => by simp [State.obj, ho]
+  refine ⟨?_, by rw [ht]; exact h.nodup, ?_, ?_, by rw [hl]; exact h.log, ?_, ?_⟩
+  · intro r hr
+    rw [ht] at hr
+    have ok := h.recs r hr
+    refine ⟨?_, ?_, ?_, ?_, ?_, ?_, ?_, ok.deadline, ?_, ok.once⟩
+    · rw [hobj]; exact ok.alive
+    · rw [hobj]; exact ok.inited
+    · rw [hobj]; exact ok.enabled
+    · rw [hobj]; exact ok.token
+    · rw [hobj]; exact ok.oneshot
+    · rw [hobj]; exact ok.interval
+    · rw [hn]; exact ok.tokLt
+    · rw [hnow]; exact ok.baseLe
+  · intro j; rw [hobj, ht]; exact h.hasRec j
+  · intro j; rw [hobj, hno]; exact h.fresh j
+  · intro t; rw [hp, hnow]; exact h.passLe t
+  · intro t; rw [hp, hld, ht]; exact h.lastLe t
+
+theorem inv_pool (s : State) (p k : List Nat) (h : Inv s) : Inv { s with pool := p, killed := k } :=
+  inv_congr h rfl rfl rfl rfl rfl rfl rfl rfl
+
 /-- two records owned by the same object are the same token -/
 theorem owner_unique {s : State} (h : Inv s) {a b : Rec} (ha : a ∈ s.timers) (hb : b ∈ s.timers)
     (ho : a.owner = b.owner) : a.tok = b.tok := by
@@ -255,12 +282,68 @@ theorem enable_inv (s : State) (j : Nat) (h : Inv s) : Inv (enable s j).1 := by
     · exact h
   · exact h
 
+theorem newObjS_inv (s : State) (sc : List Act) (h : Inv s) : Inv (newObjS s sc) := by
+  simp only [newObjS]
+  have hd : (s.obj s.nObjs).alive = false := h.fresh _ (Nat.le_refl _)
+  have hno : ∀ r ∈ s.timers, r.owner ≠ s.nObjs := by
+    intro r hr ho; have := (h.recs r hr).alive; rw [ho, hd] at this; cases this
+  refine ⟨?_, h.nodup, ?_, ?_, h.log, h.passLe, h.lastLe⟩
+  · intro q hq
+    have okq := h.recs q hq
+    have hne := hno q hq
+    have := okq.alive; have := okq.inited; have := okq.enabled; have := okq.token; have := okq.oneshot
+    have := okq.interval; have := okq.tokLt; have := okq.deadline; have := okq.baseLe; have := okq.once
+    constructor <;> simp_all [State.obj, State.setObj]
+  · intro i hia hie
+    by_cases hij : i = s.nObjs
+    · subst hij; simp [State.obj, State.setObj] at hie
+    · simp only [State.obj, State.setObj, hij, ↓reduceIte] at hia hie
+      exact h.hasRec i hia hie
+  · intro i hi
+    have : i ≠ s.nObjs := by simp at hi; omega
+    simp only [State.obj, State.setObj, this, ↓reduceIte]
+    exact h.fresh i (by simp at hi; omega)
+
+/-! ### TimerPool calls are compositions of the above -/
+
+theorem pool_add_inv (s : State) (ms : Nat) (os : Bool) (sc : List Act) (h : Inv s) : Inv (Pool.add s ms os sc).1 := by
+  unfold Pool.add
+  exact enable_inv _ _ (initTimer_inv _ _ _ _ (inv_pool _ _ _ (newObjS_inv s sc h)))
+
+theorem pool_cancel_inv (s : State) (k : Nat) (h : Inv s) : Inv (Pool.cancel s k).1 := by
+  unfold Pool.cancel
+  split
+  · exact destroy_inv _ _ (disable_inv _ _ (inv_pool _ _ _ h))
+  · exact h
+
+theorem killAll_inv (l : List Nat) (s : State) (h : Inv s) :
+    Inv (l.foldl (fun st k => (destroy (disable st k).1 k).1) s) := by
+  induction l generalizing s with
+  | nil => exact h
+  | cons k l ih => exact ih _ (destroy_inv _ _ (disable_inv _ _ h))
+
+theorem pool_cleanup_inv (s : State) (h : Inv s) : Inv (Pool.cleanup s) := by
+  unfold Pool.cleanup
+  exact inv_pool _ _ _ (killAll_inv _ _ h)
+
+theorem pool_free_inv (s : State) (k : Nat) (h : Inv s) : Inv (Pool.free s k) := by
+  unfold Pool.free
+  split
+  · exact destroy_inv _ _ (inv_congr h rfl rfl rfl rfl rfl rfl rfl rfl)
+  · exact h
+
 theorem act_inv (s : State) (a : Act) (h : Inv s) : Inv (act s a).1 := by
   cases a with
   | init j ms o => exact initTimer_inv s j ms o h
   | enable j => exact enable_inv s j h
   | disable j => exact disable_inv s j h
   | destroy j => exact destroy_inv s j h
+  | newObj sc => exact newObjS_inv s sc h
+  | doAfter ms sc => exact pool_add_inv s ms true _ h
+  | doEvery ms sc => exact pool_add_inv s ms false _ h
+  | cancel k => exact pool_cancel_inv s k h
+  | cleanup => exact pool_cleanup_inv s h
+  | pfree k => exact pool_free_inv s k h
 
 theorem runScript_inv (s : State) (as : List Act) (h : Inv s) : Inv (runScript s as) := by
   induction as generalizing s with
@@ -278,7 +361,7 @@ theorem canFire_spec {s : State} {r : Rec} (h : canFire s r = true) :
     simp only [hp, Bool.and_eq_true, decide_eq_true_eq, List.all_eq_true] at h
     exact ⟨t, rfl, h.1.1, h.1.2, h.2⟩
 
-theorem fire_inv (s : State) (r : Rec) (h : Inv s) (hc : canFire s r = true) : Inv (fire s r) := by
+theorem fireHead_inv (s : State) (r : Rec) (h : Inv s) (hc : canFire s r = true) : Inv (fireHead s r) := by
   obtain ⟨t, hpn, hr, hdue, hmin⟩ := canFire_spec hc
   have ok := h.recs r hr
   have hlast := h.lastLe t hpn
@@ -294,8 +377,7 @@ theorem fire_inv (s : State) (r : Rec) (h : Inv s) (hc : canFire s r = true) : I
     refine ⟨by simp [ok.alive, ok.enabled], ?_, hd, hlast.2 r hr, ?_, by simp⟩
     · show r.base + (r.k + 1) * r.interval ≤ t; omega
     · intro ho; have := ok.once ho; simp [this]
-  unfold fire onEvent
-  apply runScript_inv
+  unfold fireHead
   simp only [hpn, Option.getD_some]
   by_cases hos : r.oneshot = true
   · -- one-shot: record removed, object marks itself disabled
@@ -394,29 +476,14 @@ theorem fire_inv (s : State) (r : Rec) (h : Inv s) (hc : canFire s r = true) : I
       · show r.expired ≤ r.expired + r.interval; omega
       · exact hmin q hq.1
 
+theorem fire_inv (s : State) (r : Rec) (h : Inv s) (hc : canFire s r = true) : Inv (fire s r) := by
+  have : fire s r = runScript (fireHead s r) (s.obj r.owner).script := by unfold fire onEvent fireHead; rfl
+  rw [this]
+  exact runScript_inv _ _ (fireHead_inv s r h hc)
+
 theorem step_inv (s : State) (st : Step) (h : Inv s) (hv : valid s st = true) : Inv (step s st) := by
   cases st with
-  | newObj sc =>
-    simp only [step]
-    have hd : (s.obj s.nObjs).alive = false := h.fresh _ (Nat.le_refl _)
-    have hno : ∀ r ∈ s.timers, r.owner ≠ s.nObjs := by
-      intro r hr ho; have := (h.recs r hr).alive; rw [ho, hd] at this; cases this
-    refine ⟨?_, h.nodup, ?_, ?_, h.log, h.passLe, h.lastLe⟩
-    · intro q hq
-      have okq := h.recs q hq
-      have hne := hno q hq
-      have := okq.alive; have := okq.inited; have := okq.enabled; have := okq.token; have := okq.oneshot
-      have := okq.interval; have := okq.tokLt; have := okq.deadline; have := okq.baseLe; have := okq.once
-      constructor <;> simp_all [State.obj, State.setObj]
-    · intro i hia hie
-      by_cases hij : i = s.nObjs
-      · subst hij; simp [State.obj, State.setObj] at hie
-      · simp only [State.obj, State.setObj, hij, ↓reduceIte] at hia hie
-        exact h.hasRec i hia hie
-    · intro i hi
-      have : i ≠ s.nObjs := by simp at hi; omega
-      simp only [State.obj, State.setObj, this, ↓reduceIte]
-      exact h.fresh i (by simp at hi; omega)
+  | newObj sc => exact newObjS_inv s sc h
   | api a => exact act_inv s a h
   | advance d =>
     refine ⟨?_, h.nodup, h.hasRec, h.fresh, h.log, ?_, h.lastLe⟩
@@ -453,5 +520,114 @@ theorem exec_inv (s : State) (sts : List Step) (h : Inv s) (s' : State) (he : ex
     split at he
     · rename_i hv; exact ih _ (step_inv s st h hv) he
     · cases he
+
+/-! ### every call is a composition of five primitives and of updates of the pool / ghost fields -/
+
+theorem killAll_ind (P : State → State → Prop) (refl : ∀ s, P s s) (trans : ∀ a b c, P a b → P b c → P a c)
+    (hdis : ∀ s j, P s (disable s j).1) (hdes : ∀ s j, P s (destroy s j).1) (l : List Nat) (s : State) :
+    P s (l.foldl (fun st k => (destroy (disable st k).1 k).1) s) := by
+  induction l generalizing s with
+  | nil => exact refl s
+  | cons k l ih => exact trans _ _ _ (trans _ _ _ (hdis s k) (hdes _ k)) (ih _)
+
+/-- induction principle for relations between the state before and after a call; the side
+conditions `1 ≤ ms` / `posList sc` are available when the act is `pos` (pass `hp : a.pos = true`) -/
+theorem act_ind_pos (P : State → State → Prop) (refl : ∀ s, P s s) (trans : ∀ a b c, P a b → P b c → P a c)
+    (hdis : ∀ s j, P s (disable s j).1) (hinit : ∀ s j ms o, 1 ≤ ms → P s (initTimer s j ms o).1)
+    (hen : ∀ s j, P s (enable s j).1) (hdes : ∀ s j, P s (destroy s j).1)
+    (hnew : ∀ s sc, posList sc = true → P s (newObjS s sc))
+    (hpool : ∀ s p k, P s { s with pool := p, killed := k })
+    (s : State) (a : Act) (hp : a.pos = true) : P s (act s a).1 := by
+  have hadd : ∀ s ms os sc, 1 ≤ ms → posList sc = true → P s (Pool.add s ms os sc).1 := by
+    intro s ms os sc h1 h2
+    unfold Pool.add
+    exact trans _ _ _ (trans _ _ _ (trans _ _ _ (hnew s sc h2) (hpool _ _ _)) (hinit _ _ _ _ h1)) (hen _ _)
+  have happ : ∀ (sc : List Act) (k : Nat), posList sc = true → posList (sc ++ [.pfree k]) = true := by
+    intro sc k h
+    induction sc with
+    | nil => simp [posList, Act.pos]
+    | cons a as ih => simp only [posList, Bool.and_eq_true, List.cons_append] at h ⊢; exact ⟨h.1, ih h.2⟩
+  cases a with
+  | init j ms o => simp only [Act.pos, decide_eq_true_eq] at hp; exact hinit s j ms o hp
+  | enable j => exact hen s j
+  | disable j => exact hdis s j
+  | destroy j => exact hdes s j
+  | newObj sc => simp only [Act.pos] at hp; exact hnew s sc hp
+  | doAfter ms sc =>
+    simp only [Act.pos, Bool.and_eq_true, decide_eq_true_eq] at hp
+    exact hadd s ms true _ hp.1 (happ sc _ hp.2)
+  | doEvery ms sc =>
+    simp only [Act.pos, Bool.and_eq_true, decide_eq_true_eq] at hp
+    exact hadd s ms false _ hp.1 hp.2
+  | cancel k =>
+    simp only [act, Pool.cancel]
+    split
+    · exact trans _ _ _ (trans _ _ _ (hpool s _ _) (hdis _ k)) (hdes _ k)
+    · exact refl s
+  | cleanup =>
+    simp only [act, Pool.cleanup]
+    exact trans _ _ _ (killAll_ind P refl trans hdis hdes _ s) (hpool _ _ _)
+  | pfree k =>
+    simp only [act, Pool.free]
+    split
+    · exact trans _ _ _ (hpool s (s.pool.filter (fun x => x != k)) s.killed) (hdes _ k)
+    · exact refl s
+
+/-- the same without side conditions -/
+theorem act_ind (P : State → State → Prop) (refl : ∀ s, P s s) (trans : ∀ a b c, P a b → P b c → P a c)
+    (hdis : ∀ s j, P s (disable s j).1) (hinit : ∀ s j ms o, P s (initTimer s j ms o).1)
+    (hen : ∀ s j, P s (enable s j).1) (hdes : ∀ s j, P s (destroy s j).1)
+    (hnew : ∀ s sc, P s (newObjS s sc))
+    (hpool : ∀ s p k, P s { s with pool := p, killed := k })
+    (s : State) (a : Act) : P s (act s a).1 := by
+  have hadd : ∀ s ms os sc, P s (Pool.add s ms os sc).1 := by
+    intro s ms os sc
+    unfold Pool.add
+    exact trans _ _ _ (trans _ _ _ (trans _ _ _ (hnew s sc) (hpool _ _ _)) (hinit _ _ _ _)) (hen _ _)
+  cases a with
+  | init j ms o => exact hinit s j ms o
+  | enable j => exact hen s j
+  | disable j => exact hdis s j
+  | destroy j => exact hdes s j
+  | newObj sc => exact hnew s sc
+  | doAfter ms sc => exact hadd s ms true _
+  | doEvery ms sc => exact hadd s ms false _
+  | cancel k =>
+    simp only [act, Pool.cancel]
+    split
+    · exact trans _ _ _ (trans _ _ _ (hpool s _ _) (hdis _ k)) (hdes _ k)
+    · exact refl s
+  | cleanup =>
+    simp only [act, Pool.cleanup]
+    exact trans _ _ _ (killAll_ind P refl trans hdis hdes _ s) (hpool _ _ _)
+  | pfree k =>
+    simp only [act, Pool.free]
+    split
+    · exact trans _ _ _ (hpool s (s.pool.filter (fun x => x != k)) s.killed) (hdes _ k)
+    · exact refl s
+
+theorem runScript_ind (P : State → State → Prop) (refl : ∀ s, P s s) (trans : ∀ a b c, P a b → P b c → P a c)
+    (hact : ∀ s a, P s (act s a).1) (s : State) (as : List Act) : P s (runScript s as) := by
+  induction as generalizing s with
+  | nil => exact refl s
+  | cons a as ih => exact trans _ _ _ (hact s a) (ih _)
+
+theorem runScript_append (s : State) (as bs : List Act) : runScript s (as ++ bs) = runScript (runScript s as) bs := by
+  induction as generalizing s with
+  | nil => rfl
+  | cons a as ih => exact ih _
+
+theorem runScriptR_fst (s : State) (as : List Act) : (runScriptR s as).1 = runScript s as := by
+  induction as generalizing s with
+  | nil => rfl
+  | cons a as ih => simp only [runScriptR, runScript]; exact ih _
+
+theorem fire_eq (s : State) (r : Rec) : fire s r = runScript (fireHead s r) (s.obj r.owner).script := by
+  unfold fire onEvent fireHead
+  rfl
+
+/-- the driver's `fireR` computes the state of `fire` -/
+theorem fireR_fst (s : State) (r : Rec) : (fireR s r).1 = fire s r := by
+  rw [fire_eq, fireR, runScriptR_fst]
 
 end Tbox.C02
